@@ -9,14 +9,16 @@ use vlib::util::*;
 fn configs() -> Vec<Timing> {
     let mut v = vec![];
     // (positive subnormal cycle durations are positive durations like any other)
+    // (delays include huge negative ones: a finite time minus such a delay overflows f32)
     for &cycle in &[1.0e-45f32, 1.0e-40, f32::MIN_POSITIVE, 1e-30, 1e-3, 1.0, 1e3, 1e30, 2.0e38, f32::MAX] {
-        for &delay in &[0.0f32, 1e-30, 1.0, 1e30] {
+        for &delay in &[0.0f32, 1e-30, 1.0, 1e30, -1.0, -1e30, -1e32, -f32::MAX] {
             for rep in [Rep::None, Rep::Times(0), Rep::Times(1), Rep::Times(1 << 24), Rep::Times((1 << 24) + 1), Rep::Times(u32::MAX - 1), Rep::Times(u32::MAX), Rep::Infinite] {
                 for reverse in [false, true] {
                     let t = Timing::new(cycle, delay, rep, reverse);
-                    // validity bound: the total duration must be representable
+                    // validity bound: the total duration must be representable, and so must the length of all
+                    // cycles together (cycle x (repeats + 1), which the total is computed from)
                     if let Some(total) = t.total() {
-                        if total > f32::MAX as f64 {
+                        if total > f32::MAX as f64 || total - delay as f64 > f32::MAX as f64 {
                             continue;
                         }
                     }
@@ -445,6 +447,30 @@ pub fn run(run: Run) -> ! {
             acc.sink.add(&sig, rank, || (desc, case));
         }
     }
+    // copying merged timelines of different sizes over one another is an ordinary operation
+    {
+        let mk = |n: usize| MergedTimeline::of((0..n).map(|i| TlSpec { kfs: vec![kf(0.0, Some(i as f32), None, None), kf(1.0, Some(8.0), Some(3), None)], default_easing: 0, timing: Timing::new(1.0 + i as f32, 0.0, Rep::None, false) }.build()).collect::<Vec<PTimeline>>());
+        for na in 0..4usize {
+            for nb in 0..4usize {
+                let (mut a, b) = (mk(na), mk(nb));
+                acc.ops += 1;
+                let r = catch_unwind(AssertUnwindSafe(|| {
+                    a.clone_from(&b);
+                    let mut p = P::default();
+                    a.update(&mut p, 0.5);
+                    (a.duration(), p)
+                }));
+                match r {
+                    Err(_) => acc.sink.add("panic:merged-clone_from", (3u64 << 40) | (na as u64) << 8 | nb as u64, || (format!("clone_from of a merged timeline of {nb} components into one of {na} panicked"), json!({"family": "merged-clone_from", "target_components": na, "source_components": nb}))),
+                    Ok((d, p)) => {
+                        if d.to_bits() != b.duration().to_bits() || !finite_p(&p) {
+                            acc.sink.add("non-finite:merged-clone_from", (3u64 << 40) | (na as u64) << 8 | nb as u64, || (format!("after clone_from ({nb} components into {na}): duration {d} (source {}), values {p:?}", b.duration()), json!({"family": "merged-clone_from", "target_components": na, "source_components": nb})));
+                        }
+                    }
+                }
+            }
+        }
+    }
     // the empty merged timeline is a valid (degenerate) configuration: its metadata must be finite
     {
         let empty: MergedTimeline<PTimeline> = MergedTimeline::of(Vec::<PTimeline>::new());
@@ -518,6 +544,14 @@ pub fn run(run: Run) -> ! {
 }
 
 pub fn replay(case: &Value) -> bool {
+    if case["family"] == "merged-clone_from" {
+        let (na, nb) = (case["target_components"].as_u64().unwrap_or(0) as usize, case["source_components"].as_u64().unwrap_or(0) as usize);
+        let mk = |n: usize| MergedTimeline::of((0..n).map(|i| TlSpec { kfs: vec![kf(0.0, Some(i as f32), None, None), kf(1.0, Some(8.0), Some(3), None)], default_easing: 0, timing: Timing::new(1.0 + i as f32, 0.0, Rep::None, false) }.build()).collect::<Vec<PTimeline>>());
+        let (mut a, b) = (mk(na), mk(nb));
+        let ok = catch_unwind(AssertUnwindSafe(|| a.clone_from(&b))).is_ok();
+        println!("clone_from of {nb} components into {na}: {}", if ok { "ok" } else { "panicked" });
+        return ok && a.duration().to_bits() == b.duration().to_bits();
+    }
     if case["family"] == "settings-omitted" {
         let bad: Vec<_> = settings_omitted().into_iter().filter(|x| !x.0.is_empty()).collect();
         for (s, _, d, _) in &bad {
